@@ -21,6 +21,12 @@ claim("C17", "Coq proof by computation over registry tables regenerated from src
       "The 16 registry tables are re-extracted from the source on every run; theorems (finite, by vm_compute, lifted with forallb_forall) show conversions mutually inverse, one-to-one, included in a frozen IANA reference, private predicate = (< -65536), and the label classification; from_i64/is_private/label decoding are also compared against the implementation on an integer window.",
       COMMON_NOTE, "DESIGN.md 7 (C17)")
 
+
+for _pid, _t in (("C03", "Sig_structure"), ("C04", "MAC_structure"), ("C05", "Enc_structure")):
+    claim(_pid, "Coq proof (model function = RFC 8152 %s over a hand-written RFC 8949 deterministic encoder; injectivity from the proved codec round trip) + 3-way run: implementation vs extracted model vs independent Python encoder" % _t,
+          "Theorems for all headers/AAD/payloads (no length bound below 2^64): the structure function returns exactly the RFC array in deterministic encoding, with the context strings regenerated from the source and pinned to the RFC's; callers use the stated context/slots and panic exactly where documented; the structure is injective in every component. The Rust functions and every create/verify/decrypt helper are run on generated tuples across bstr length classes and compared byte-for-byte with the model and with an independent Python encoder.",
+          COMMON_NOTE, "DESIGN.md 7 (C03-C05)")
+
 def main():
     props = sorted(TITLES)
     checks = []
